@@ -580,6 +580,17 @@ def wb_queries(h, cfg):
         return [z3.Not(inwin)], z3.Or(*subs_cyc, *leaf_stb) if (subs_cyc or leaf_stb) else z3.BoolVal(False)
     qs.append(Q("outside-every-window-nothing-happens", 1, outside))
 
+    def no_request(h, fr):
+        # cyc without stb, stb without cyc, or neither (for any number of cycles, in any state): no register is read in
+        # that cycle and none is written in the next
+        bus = h.bus
+        f0, f1 = fr
+        rs = [is1(f0.sig(R.element.r_stb)) for R, s, e, w in h.leaves if R.element.access.readable()]
+        ws = [is1(f1.sig(R.element.w_stb)) for R, s, e, w in h.leaves if R.element.access.writable()]
+        return [z3.Not(z3.And(is1(f0.sig(bus.cyc)), is1(f0.sig(bus.stb))))], \
+            z3.Or(*rs, *ws) if (rs or ws) else z3.BoolVal(False)
+    qs.append(Q("without-a-request-no-register-is-accessed", 2, no_request))
+
     # SRAM words: a write transfer changes exactly the selected granules of the addressed row
     for name, sram in h.srams:
         info = [i for i in h.mm.all_resources() if i.resource is list(sram.wb_bus.memory_map.resources())[0][0]][0]
